@@ -534,6 +534,9 @@ package zygo
 // a scope stack it was handed as a value (a package), which would bypass the capitalisation check
 // of the dot-path walkers
 //@ callers C18 (*Stack).BindSymbol | (*Zlisp).LexicalBindSymbol
+// ... and looked into by name through the package walker only (which applies the capitalisation check
+// to what it finds), besides the interpreter's own stack and a closure's own captured scopes
+//@ callers C18 (*Stack).LookupSymbol | (*Stack).nestedPathGetSet, (*Closing).LookupSymbol, (*Zlisp).FindObject
 // an assignment through a selector ((set (arrayidx a [0]) 5), {a[0] = 5}) is an expression like
 // def and set: it leaves the assigned value (it used to leave nothing, see 9.3)
 //@ func (AssignInstr).Execute
